@@ -1,11 +1,12 @@
 #!/bin/bash
 # usage: seed_store.sh <prop> <A|B> "<needs>"   -- keep a confirmed mutant under /verif/seeded/<prop>-<M>/
-P=$1; M=$2; NEEDS=$3; OUT=/tmp/wt/$P/OUT; D=/verif/seeded/$P-$M
+# P: worktree name (C02 or C02r2); M: A|B; optional 4th arg: letter to store under (C, D for round 2)
+W=$1; M=$2; NEEDS=$3; L=${4:-$M}; P=${W%r2}; OUT=/tmp/wt/$W/OUT; D=/verif/seeded/$P-$L
 mkdir -p $D
 cp $OUT/mut$M.diff $D/patch.diff
 cp $OUT/demo${M}_test.go $D/demo_test.go
 awk "/utant $M/,0" $OUT/notes.md | head -60 > $D/agent_notes.md
-python3 - "$P" "$M" "$NEEDS" <<'PY'
+python3 - "$P" "$L" "$NEEDS" <<'PY'
 import json,sys,re
 P,M,needs=sys.argv[1:4]
 demo=open(f"/verif/seeded/{P}-{M}/demo_test.go").read()
